@@ -110,11 +110,7 @@ Inductive uop :=
 | Add (silent : bool) (src dst : gd)
 | Move (silent : bool) (src dst : gd)
 | Copy (silent : bool) (src dst : gd)
-| Create (silent : bool) (c : cid)
-(* DELETE/INSERT whose WHERE clause consists of one sub-select: u.where is the
-   sub-select itself, not Join(BGP [], group) - no hash join on top *)
-| ModifyS (w : option cid) (using_default using_named : bool)
-          (del ins : option tmpl) (omega : list sol).
+| Create (silent : bool) (c : cid).
 
 (* ------------------------------------------------------------------ *)
 (* _fillTemplate, _legal                                                *)
@@ -416,9 +412,9 @@ Definition eval_op (e : env) (k : N) (o : uop) (s : dstate) : res :=
   | DeleteData ts qs => evalDeleteData e ts qs s
   | DeleteWhere tm om => evalDeleteWhere e k tm om s
   | DeleteWhereW tm => evalDeleteWhere e k tm (dw_omega e tm (quads s)) s
-  (* u.where is always Join(BGP [], group): evalJoin's hash join turns the right operand into a
-     set, so a solution that occurs several times is applied once (F10l) *)
-  | Modify w ud un d i om => evalModify e k w (ud || un) d i (Sparql.Algebra.dedup om) s
+  (* the solution SEQUENCE is applied as it is: after the repair of F10l the hash join on top of
+     u.where keeps the multiplicities of its right operand *)
+  | Modify w ud un d i om => evalModify e k w (ud || un) d i om s
   | ModifyW w ud un d i p =>
       (* evalGraph raises without a dataset, when list(res) is forced: before any write *)
       if negb (has_dataset e) && uses_graph p then Raise s
@@ -431,7 +427,6 @@ Definition eval_op (e : env) (k : N) (o : uop) (s : dstate) : res :=
   (* evalCreate: ctx.dataset (raises for a plain Graph), "already exists" for a
      graph with triples, else "Create not implemented!": it always raises *)
   | Create sl c => silence sl (Raise s)
-  | ModifyS w ud un d i om => evalModify e k w (ud || un) d i om s
   end.
 
 (* evalUpdate: operations in order, the first failure aborts the rest *)
@@ -573,9 +568,6 @@ Definition spec_op (e : env) (k : N) (o : uop) (a : qset) : qset :=
       let s := gd_cid e sg in let d := gd_cid e dg in
       if N.eqb s d then a else drop_graph s (drop_graph d a ++ to_graph d (graph_of s a))
   | Create _ _ => a          (* an empty graph more or less: no quad changes *)
-  | ModifyS w _ _ d i om =>
-      let dg := match w with Some c => c | None => dflt e end in
-      qdiff a (s_all e false k dg d om) ++ s_all e true k dg i om
   end.
 
 Fixpoint spec_from (e : env) (k : N) (ops : list uop) (a : qset) : qset :=
@@ -600,9 +592,6 @@ Definition needs_dataset (o : uop) : bool :=
   | Add _ a b | Move _ a b | Copy _ a b =>
       match a, b with DDefault, DDefault => false | _, _ => true end
   | Create _ _ => true
-  | ModifyS w ud un d i _ =>
-      match w with Some _ => true | None => false end || ud || un
-      || tm_has_quads d || tm_has_quads i
   end.
 
 (* CREATE without SILENT always fails in rdflib ("Create not implemented!");
@@ -675,17 +664,9 @@ Definition iso_eqb (a b : qset) : bool :=
 (* ------------------------------------------------------------------ *)
 (* Known-finding trigger                                                *)
 
-(* F10l: a solution sequence with a repeated solution (nested sub-select that
-   projects a variable away) is de-duplicated by the hash join at the top of
-   every update WHERE clause: templates are instantiated once per distinct
-   solution, so fewer fresh blank nodes than solutions are made.  (F5, F10a-i are
-   repaired in /repo, F10j was decided not to be a finding.) *)
-Definition sols_eqb : list sol -> list sol -> bool := list_eqb (list_eqb (pair_eqb N.eqb N.eqb)).
-Definition op_kf (e : env) (k : N) (o : uop) : N :=
-  match o with
-  | Modify _ _ _ _ _ om => if sols_eqb (Sparql.Algebra.dedup om) om then 0 else 4
-  | _ => 0
-  end.
+(* no known finding is left: F5, F10a-i and F10l are repaired in /repo, F10j was
+   decided not to be one *)
+Definition op_kf (e : env) (k : N) (o : uop) : N := 0.
 
 Fixpoint kf_from (e : env) (k : N) (ops : list uop) : N :=
   match ops with
